@@ -169,7 +169,7 @@ def part_a(tier, seed, ev, rep):
     runs = []  # (variant, threads, plain, idx, text)
     for i, (origin, q) in enumerate(seqs):
         kinds = q[0]["ik"]
-        has_unconn = "unconn" in kinds.values()
+        has_unconn = "unconn" in kinds.values() or "unconnr" in kinds.values()
         # TCP differs from the modelled stream (a write after the peer's close succeeds once, delivery is
         # asynchronous): it is only used to drive connect() through EINPROGRESS, without data transfer
         use_tcp = tcp and has_unconn and all(a["t"] == "call" and S.opclass(a["op"]) not in ("read", "write") for a in q)
@@ -307,8 +307,9 @@ def main():
             ev["coverage"]["samples"].append({"note": "no accepted implementation run in this tier"})
         ev["coverage"]["states"] = max(1, ev["coverage"]["states"])
         ev["coverage"]["transitions"] = max(1, ev["coverage"]["transitions"])
-        os.makedirs(os.path.join(ROOT, "evidence"), exist_ok=True)
-        json.dump(ev, open(os.path.join(ROOT, "evidence", PROP + ".json"), "w"), indent=1)
+        evdir = os.environ.get("VERIF_EVIDENCE_DIR", os.path.join(ROOT, "evidence"))
+        os.makedirs(evdir, exist_ok=True)
+        json.dump(ev, open(os.path.join(evdir, PROP + ".json"), "w"), indent=1)
         for k, v in ev["coverage"].get("ioshim_executions", {}).items():
             log(f"  IOShim {k}: {v}")
         return 1 if viol else 0
